@@ -108,7 +108,7 @@ func init() {
 		}
 	}
 	reg(&family{name: "vhmm", kind: "vector", approxRT: true, anyLen: true,
-		only: map[string]bool{"points": true, "roundtrip": true, "holder": true, "history": true, "alias": true},
+		only: map[string]bool{"points": true, "roundtrip": true, "holder": true, "history": true, "alias": true, "storage": true},
 		build: func(d Dist, t ScalarType) (any, error) {
 			h := hmmSplit(d)
 			ed := make([]st.ScalarPdf, h.m)
